@@ -20,7 +20,7 @@ func init() {
 		Assumptions:    []string{"a recycling validator is used once (documented contract)", trustDeps},
 	}
 	Properties["C05"] = PropSpec{
-		Rules:          []Rule{Globals, Cow, PoolAPI, ResLinear, Slots, Stateless},
+		Rules:          []Rule{Globals, SharedReach, Cow, PoolAPI, ResLinear, Slots, Stateless},
 		DebugConfigToo: true,
 		Explanation:    "Decides the structural conditions race-freedom and independence rest on, for every function and path: GLOBALS (every package-level variable classified: sync object / never written after init / guarded) + LOCKSET (every run-time access of a guarded global holds the mutex common to its writers; must-held locksets with call-site propagated entry sets); COW (published regexp-cache snapshots are never written, publication under the mutex after an in-section reload, into a fresh map); exclusive ownership of pooled objects (RES-LINEAR: nothing is read after its release, nothing released twice; SLOT-*: no child reachable from two owners; POOL-API, EMPTY-IMMUTABLE: the shared empty result is never written); STATELESS (a validator built without recycling is only read while validating, so it can be shared).",
 		NotDecided:     "The Go memory model itself; races inside dependencies (spec expander, analysis); caller-supplied registries; equality of concurrent and solitary outcomes beyond independence of shared state.",
